@@ -91,7 +91,7 @@ def parse_inv(argv):
     return compile_, run, inp, out, bad
 
 
-def run_history(files, backend, names, fault_at=None, fault=None, srcfault=None, macro_dir=None):
+def run_history(files, backend, names, fault_at=None, fault=None, srcfault=None, macro_dir=None, how="abs"):
     """Run the invocations `names` in one fresh sandbox; inject `fault` (command index) or `srcfault` in invocation
     number fault_at.  Returns the list of per-invocation observations."""
     sb = Sandbox(files, backend, filelist=MOUNTED, macro_dir=macro_dir)
@@ -100,7 +100,7 @@ def run_history(files, backend, names, fault_at=None, fault=None, srcfault=None,
         for k, nm in enumerate(names):
             argv = [sb.inner(a) if a.startswith("/out") else a for a in INV[nm]]
             out_dirs_before = {d: sb.path(d).is_dir() for d in ("/out1", "/out2", "/results")}
-            rc, log, nonce, text = sb.invoke(argv, fault=fault if k == fault_at else None, srcfault=srcfault if k == fault_at else None)
+            rc, log, nonce, text = sb.invoke(argv, fault=fault if k == fault_at else None, srcfault=srcfault if k == fault_at else None, how=how)
             cmds = [l for l in log if len(l) >= 5 and l[0].isdigit()]
             obs.append({
                 "name": nm, "rc": rc, "nonce": nonce, "ncmd": len(cmds), "tools": [l[1] for l in cmds], "occ": [f"{l[1]}:{l[3]}" for l in cmds],
@@ -186,11 +186,12 @@ def built_after(o, built_before):
 
 
 def explore(args):
-    backend, files, hist, fault_scope, macro_dir = args
+    backend, files, hist, fault_scope, macro_dir = args[:5]
+    how = args[5] if len(args) > 5 else "abs"
     stats = Counter()
     bad = []
     outcomes = set()
-    base = run_history(files, backend, hist, macro_dir=macro_dir)
+    base = run_history(files, backend, hist, macro_dir=macro_dir, how=how)
     stats["runs"] += 1
     built = False
     builts = []
@@ -209,7 +210,7 @@ def explore(args):
         # the analysis job and the conversion can also die AFTER having written their output (an exception at event k)
         plans += [("cmd", o + ":late") for o in sorted(set(base[k]["occ"]), key=base[k]["occ"].index) if o.split(":")[0] in JOB_TOOLS | {"root"}]
         for kind, what in plans:
-            obs = run_history(files, backend, hist, fault_at=k, fault=what if kind == "cmd" else None, srcfault=what if kind == "src" else None, macro_dir=macro_dir)
+            obs = run_history(files, backend, hist, fault_at=k, fault=what if kind == "cmd" else None, srcfault=what if kind == "src" else None, macro_dir=macro_dir, how=how)
             stats["runs"] += 1
             stats["fault_runs"] += 1
             o = obs[k]
@@ -267,6 +268,10 @@ def main(tier="quick"):
             hists.append(h)
         for h in hists:
             work.append((backend, files, h, "last" if tier == "quick" else "any", str(macro_dir) if macro_dir else None))
+        # the same script started through a relative path and as an argument of bash (fault-free and with faults in the last step)
+        for how in ("rel", "bash"):
+            for h in (["full"], ["c", "r-d-o"], ["d-o"], ["full", "r"], ["c", "r-d-o", "r-d2-o2"], ["unknown"], ["stray"]):
+                work.append((backend, files, h, "last", str(macro_dir) if macro_dir else None, how))
     try:
         res = par.pmap(explore, work)
     finally:
